@@ -167,6 +167,7 @@ class LoopSpec:
     hints_end: list[str] = field(default_factory=list)  # facts asserted (proved, then assumed) at the end of the body
     hints_after: list[str] = field(default_factory=list)
     hints_begin: list[str] = field(default_factory=list)
+    hints_entry: list[str] = field(default_factory=list)  # just before the loop (after the iterated value is evaluated)
 
 
 @dataclass
@@ -188,6 +189,7 @@ class Contract:
     generator: bool = False  # verified as the list of yielded values
     splits: dict[str, str] = field(default_factory=dict)  # case split of the precondition: label -> condition
     witness: dict[str, str] = field(default_factory=dict)  # named terms whose model values are reported (for replay)
+    hide: list[str] = field(default_factory=list)  # spec functions whose definitions stay opaque in this function's VCs
 
 
 @dataclass
@@ -213,6 +215,8 @@ class Lemma:
     triggers: list[str] = field(default_factory=list)
     trusted: bool = False
     cases: list[str] = field(default_factory=list)
+    hide: list[str] = field(default_factory=list)
+    explicit: bool = False  # not a global axiom: only instantiated by `use name(args)` hints
 
 
 # --------------------------------------------------------------------------- the engine
@@ -414,13 +418,33 @@ class Engine:
             first = False
         return r
 
-    def norm_index(self, s: V, i: Any) -> Any:
+    def norm_index(self, s: V, i: Any, st: Optional["State"] = None) -> Any:
         """Python index -> offset (negative indices count from the end)."""
         i = z3.simplify(i) if z3.is_expr(i) else z3.IntVal(i)
         if z3.is_int_value(i):
             n = i.as_long()
             return z3.IntVal(n) if n >= 0 else self.seq_len(s) + n
+        if getattr(self, "trigger_mode", False):
+            return i  # patterns must be ite-free; the index is taken as written
+        if st is not None and self.entails_qf(st, i >= 0):
+            return i
+        if st is not None and self.entails_qf(st, i < 0):
+            return i + self.seq_len(s)
         return z3.If(i < 0, i + self.seq_len(s), i)
+
+    def entails_qf(self, st: "State", f: Any) -> bool:
+        """Does the quantifier-free part of the path condition entail f?  (A quick,
+        sound simplification aid: `unknown` counts as no.)"""
+        sv = z3.Solver()
+        sv.set("timeout", 1000)
+        for a in st.pc:
+            if not _has_quant(a):
+                sv.add(a)
+        for _, a in self.pre.axioms:
+            if not _has_quant(a):
+                sv.add(a)
+        sv.add(z3.Not(f))
+        return sv.check() == z3.unsat
 
     def seq_slice(self, s: V, lo: Optional[Any], hi: Optional[Any]) -> V:
         assert isinstance(s.ty, SeqTy)
@@ -450,7 +474,8 @@ class Engine:
     # ------------------------------------------------------------------ VCs
     def base_assertions(self) -> list[Any]:
         out = [f for _, f in self.pre.axioms]
-        out += [f for _, f in self.spec_axioms]
+        hidden = set((self.cur_contract.hide if self.cur_contract is not None else None) or getattr(self, "cur_hide", None) or [])
+        out += [f for nm, f in self.spec_axioms if nm.split(".")[1] not in hidden]
         out += [f for _, f in self.lemma_axioms]
         out += [f for _, f in self.extra_axioms]
         out += self.strlit_axioms()
@@ -771,7 +796,7 @@ class Engine:
             return self.seq_slice(obj, lo, hi)
         key = self.expr(n.slice, st)
         if isinstance(obj.ty, SeqTy):
-            i = self.norm_index(obj, self.coerce(key, INT).t)
+            i = self.norm_index(obj, self.coerce(key, INT).t, st)
             self.check(st, z3.And(0 <= i, i < self.seq_len(obj)), "IndexError", f"{ast.unparse(n)}")
             return self.seq_idx(obj, i)
         if isinstance(obj.ty, MapTy):
@@ -900,9 +925,12 @@ class Engine:
             b, g, env = self.bind_iter(gen, st2)
             bvs += b
             guards.append(g)
+            st2.pc.append(g)
             st2.env.update(env)
             for cond in gen.ifs:
-                guards.append(self.truthy(self.expr(cond, st2)))
+                c = self.truthy(self.expr(cond, st2))
+                guards.append(c)
+                st2.pc.append(c)
         saved = self.pending_raises
         self.pending_raises = []
         body = self.truthy(self.expr(n.elt, st2))
@@ -927,6 +955,13 @@ class Engine:
         if isinstance(coll.ty, SetTy):
             raise Unsupported("list comprehension over a set", n)
         xs = self.as_seq(coll, st)
+        xs_orig = xs
+        gfn = self.closed_comprehension(n, gen, xs)
+        if not (z3.is_const(xs.t) and xs.t.decl().kind() == z3.Z3_OP_UNINTERPRETED):
+            # name the source so that it can occur in (ite-free) patterns
+            named = self.fresh(f"csrc{k}", xs.ty)
+            self.assume(st, named.t == xs.t)
+            xs = named
         bv = z3.Int(f"ci${k}")
         st2 = st.fork()
         st2.old = st.old
@@ -950,6 +985,8 @@ class Engine:
             # make the universally quantified safety fact available
             st.pc.append(z3.ForAll([bv], z3.Implies(z3.And(*local), z3.Not(neg))))
         rty = SeqTy(elt.ty)
+        if gfn is not None:
+            return V(gfn(xs_orig.t), rty)
         r = self.fresh(f"comp{k}", rty)
         if not conds:
             self.assume(st, self.seq_len(r) == self.seq_len(xs))
@@ -974,6 +1011,99 @@ class Engine:
                                   patterns=[self.seq_idx(xs, bv).t]))
         self.assume(st, ln_r <= ln_x)
         return r
+
+    def closed_comprehension(self, n: Any, gen: ast.comprehension, xs: V) -> Any:
+        """A comprehension whose element / filter expressions mention only the loop
+        target and immutable fields denotes a *function* of the iterated sequence:
+        one global symbol per (element sort, text) with global axioms (pointwise
+        map / order-preserving embedding for filters, plus the homomorphism laws
+        f([]) = [], f([x]) = ..., f(a + b) = f(a) + f(b) that give lemmas an
+        inductive handle).  The same text in code and in a clause is the same term."""
+        import hashlib as _h
+        text = f"{xs.ty.name}|{ast.unparse(gen.target)}|{ast.unparse(n.elt)}|{[ast.unparse(c) for c in gen.ifs]}"
+        tag = _h.sha1(text.encode()).hexdigest()[:8]
+        cache = self.__dict__.setdefault("_closed_comp", {})
+        if tag in cache:
+            return cache[tag]
+        cache[tag] = None
+        S = self.sort(xs.ty)
+        q = V(z3.Const(f"cq_{tag}", S), xs.ty)
+        bv = z3.Int(f"cqi_{tag}")
+        gst = State()
+        saved_mode, saved_pr, saved_fr = self.mode_spec, self.pending_raises, getattr(self, "fields_read", None)
+        self.mode_spec = True
+        self.pending_raises = []
+        self.fields_read = set()
+        try:
+            gst.env.update(self.bind_target(gen.target, self.seq_idx(q, bv)))
+            conds = [self.truthy(self.expr(c, gst)) for c in gen.ifs]
+            elt = self.expr(n.elt, gst)
+            reads = set(self.fields_read)
+        except (Unsupported, ContractError, KeyError):
+            return None
+        finally:
+            self.mode_spec, self.pending_raises, self.fields_read = saved_mode, saved_pr, saved_fr
+        if any(f in rec.mutable for (rec, f) in reads):
+            return None
+        if getattr(elt, "empty_lit", False):
+            return None
+        rty = SeqTy(elt.ty)
+        R = self.sort(rty)
+        fn = z3.Function(f"comp_{tag}", S, R)
+        ln_x, ln_r = self.pre.seqf(xs.ty, "len"), self.pre.seqf(rty, "len")
+        idx_x, idx_r = self.pre.seqf(xs.ty, "idx"), self.pre.seqf(rty, "idx")
+        cond_at = lambda i: z3.substitute(z3.And(*conds), (bv, i)) if conds else z3.BoolVal(True)  # noqa: E731
+        elt_at = lambda i: z3.substitute(elt.t, (bv, i))  # noqa: E731
+        A = self.pre.ax
+        i, j = z3.Ints(f"cgi_{tag} cgj_{tag}")
+        inb = z3.And(0 <= i, i < ln_x(q.t))
+        if not conds and getattr(self, "no_global_map", False):
+            return None
+        if not conds:
+            A(f"comp.{tag}.len", z3.ForAll([q.t], ln_r(fn(q.t)) == ln_x(q.t), patterns=[fn(q.t)]))
+            A(f"comp.{tag}.idx", z3.ForAll([q.t, i], z3.Implies(inb, idx_r(fn(q.t), i) == elt_at(i)),
+                                           patterns=[idx_r(fn(q.t), i), z3.MultiPattern(fn(q.t), idx_x(q.t, i))]))
+        else:
+            emb = z3.Function(f"emb_{tag}", S, T.I, T.I)
+            inv = z3.Function(f"embinv_{tag}", S, T.I, T.I)
+            A(f"comp.{tag}.emb", z3.ForAll([q.t, i], z3.Implies(z3.And(0 <= i, i < ln_r(fn(q.t))), z3.And(
+                0 <= emb(q.t, i), emb(q.t, i) < ln_x(q.t), cond_at(emb(q.t, i)), idx_r(fn(q.t), i) == elt_at(emb(q.t, i)),
+                inv(q.t, emb(q.t, i)) == i)), patterns=[idx_r(fn(q.t), i)]))
+            A(f"comp.{tag}.mono", z3.ForAll([q.t, i, j], z3.Implies(z3.And(0 <= i, i < j, j < ln_r(fn(q.t))), emb(q.t, i) < emb(q.t, j)),
+                                            patterns=[z3.MultiPattern(emb(q.t, i), emb(q.t, j))]))
+            A(f"comp.{tag}.inv", z3.ForAll([q.t, i], z3.Implies(z3.And(inb, cond_at(i)), z3.And(
+                0 <= inv(q.t, i), inv(q.t, i) < ln_r(fn(q.t)), emb(q.t, inv(q.t, i)) == i)),
+                patterns=[z3.MultiPattern(fn(q.t), idx_x(q.t, i))]))
+            A(f"comp.{tag}.len", z3.ForAll([q.t], z3.And(0 <= ln_r(fn(q.t)), ln_r(fn(q.t)) <= ln_x(q.t)), patterns=[fn(q.t)]))
+        # homomorphism laws
+        emp_x, emp_r = self.pre.fn[f"empty_{xs.ty.name}"], self.pre.fn[f"empty_{rty.name}"]
+        unit_x, unit_r = self.pre.seqf(xs.ty, "unit"), self.pre.seqf(rty, "unit")
+        app_x, app_r = self.pre.seqf(xs.ty, "app"), self.pre.seqf(rty, "app")
+        a, b = z3.Const(f"cga_{tag}", S), z3.Const(f"cgb_{tag}", S)
+        x = z3.Const(f"cgx_{tag}", self.sort(xs.ty.elem))
+        A(f"comp.{tag}.empty", fn(emp_x) == emp_r)
+        if not getattr(self, "no_hom", False): A(f"comp.{tag}.app", z3.ForAll([a, b], fn(app_x(a, b)) == app_r(fn(a), fn(b)), patterns=[fn(app_x(a, b))]))
+        ux = unit_x(x)
+        e0 = z3.substitute(elt.t, (self.seq_idx(q, bv).t, x))
+        c0 = z3.substitute(z3.And(*conds), (self.seq_idx(q, bv).t, x)) if conds else z3.BoolVal(True)
+        if not self.mentions(e0, bv) and not self.mentions(c0, bv):
+            A(f"comp.{tag}.unit", z3.ForAll([x], fn(ux) == z3.If(c0, unit_r(e0), emp_r), patterns=[fn(ux)]))
+        self.trusted_used.add("comprehensions over closed element/filter expressions denote functions of the iterated sequence (pointwise map / order-preserving filter; f([])=[], f(a+b)=f(a)+f(b))")
+        cache[tag] = fn
+        return fn
+
+    def mentions(self, t: Any, c: Any) -> bool:
+        seen = set()
+        stack = [t]
+        while stack:
+            e = stack.pop()
+            if e.get_id() in seen:
+                continue
+            seen.add(e.get_id())
+            if e.eq(c):
+                return True
+            stack.extend(e.children())
+        return False
 
     def comprehension_nested(self, n: ast.ListComp | ast.GeneratorExp, st: State) -> V:
         raise Unsupported("nested comprehension (give the function a handler)", n)
@@ -1064,14 +1194,18 @@ class Engine:
             st2.env[nm] = V(bv, ty)
         body = self.truthy(self.expr(lam.body, st2))
         pats = []
-        for kw in n.keywords:
-            if kw.arg == "triggers":
-                for pe in kw.value.elts:  # type: ignore[attr-defined]
-                    if isinstance(pe, (ast.Tuple, ast.List)):
-                        terms = [self.expr(e, st2).t for e in pe.elts]
-                        pats.append(z3.MultiPattern(*terms) if len(terms) > 1 else terms[0])
-                    else:
-                        pats.append(self.expr(pe, st2).t)
+        self.trigger_mode = True
+        try:
+            for kw in n.keywords:
+                if kw.arg == "triggers":
+                    for pe in kw.value.elts:  # type: ignore[attr-defined]
+                        if isinstance(pe, (ast.Tuple, ast.List)):
+                            terms = [self.expr(e, st2).t for e in pe.elts]
+                            pats.append(z3.MultiPattern(*terms) if len(terms) > 1 else terms[0])
+                        else:
+                            pats.append(self.expr(pe, st2).t)
+        finally:
+            self.trigger_mode = False
         q = z3.ForAll(bvs, body, patterns=pats) if universal else z3.Exists(bvs, body)
         return V(q, BOOL)
 
@@ -1098,6 +1232,7 @@ class Engine:
                 body = body_stmts[0].value
             sig = [self.sort(t) for _, t in params] + [self.sort(ret)]
             sp = SpecFn(d.name, params, ret, body, z3.Function(d.name, *sig), z3.Function(d.name + "_lim", *sig), ast.unparse(d))
+            sp.decl_lim0 = z3.Function(d.name + "_lim0", *sig)  # type: ignore[attr-defined]
             opaque = any(isinstance(dec, ast.Name) and dec.id == "opaque" for dec in d.decorator_list)
             if opaque:
                 sp.body = None
@@ -1123,8 +1258,18 @@ class Engine:
             bt = self.subst_decl(b.t, sp.decl, sp.decl_lim)
             lhs = sp.decl(*bvs)
             eqn = self.eq(V(lhs, sp.ret), V(bt, sp.ret)) if not isinstance(sp.ret, (SeqTy, SetTy, MapTy)) else (lhs == bt)
-            self.spec_axioms.append((f"spec.{sp.name}.def", z3.ForAll(bvs, eqn, patterns=[lhs])))
-            self.spec_axioms.append((f"spec.{sp.name}.lim", z3.ForAll(bvs, sp.decl_lim(*bvs) == lhs, patterns=[lhs])))
+            self.spec_axioms.append((f"spec.{sp.name}.def", z3.ForAll(bvs, eqn, patterns=[lhs], qid=f"spec.{sp.name}.def")))
+            self.spec_axioms.append((f"spec.{sp.name}.lim", z3.ForAll(bvs, sp.decl_lim(*bvs) == lhs, patterns=[lhs], qid=f"spec.{sp.name}.lim")))
+            if not self.same_term(bt, b.t):
+                # recursive definition: two levels of unfolding ("fuel 2"): f -> f_lim -> f_lim0
+                bt0 = self.subst_decl(b.t, sp.decl, sp.decl_lim0)  # type: ignore[attr-defined]
+                lhs1 = sp.decl_lim(*bvs)
+                eqn1 = self.eq(V(lhs1, sp.ret), V(bt0, sp.ret)) if not isinstance(sp.ret, (SeqTy, SetTy, MapTy)) else (lhs1 == bt0)
+                self.spec_axioms.append((f"spec.{sp.name}.def1", z3.ForAll(bvs, eqn1, patterns=[lhs1], qid=f"spec.{sp.name}.def1")))
+                self.spec_axioms.append((f"spec.{sp.name}.lim0", z3.ForAll(bvs, sp.decl_lim0(*bvs) == lhs, patterns=[lhs], qid=f"spec.{sp.name}.lim0")))  # type: ignore[attr-defined]
+
+    def same_term(self, a: Any, b: Any) -> bool:
+        return a.eq(b)
 
     def subst_decl(self, t: Any, old: Any, new: Any) -> Any:
         cache: dict[int, Any] = {}
@@ -1241,3 +1386,17 @@ class Engine:
 
 
 BOOL_S = z3.BoolSort()
+
+
+def _has_quant(t: Any) -> bool:
+    seen = set()
+    stack = [t]
+    while stack:
+        e = stack.pop()
+        if e.get_id() in seen:
+            continue
+        seen.add(e.get_id())
+        if z3.is_quantifier(e):
+            return True
+        stack.extend(e.children())
+    return False
